@@ -96,7 +96,7 @@ func (c *c20Ctl) hash(p string, self bool) string {
 
 // wait for goroutine i to reach its next callback or to finish
 func (c *c20Ctl) wait(i int) c20CObs {
-	deadline := time.Now().Add(20 * time.Second)
+	deadline := time.Now().Add(120 * time.Second) // generous: the machine may be heavily loaded
 	for time.Now().Before(deadline) {
 		select {
 		case e := <-c.ev:
@@ -260,7 +260,7 @@ func c20RunConc(dir string, r *rand.Rand, mixed bool, idx int) c20CResult {
 	results := make([]c20CObs, nThreads)
 	record := func(i int, o c20CObs, step int) {
 		if o.K == "stuck" {
-			res.direct = append(res.direct, directViolation{Case: idx, Step: step, What: "concurrent Find did not reach a callback or return within 20 s / faulted: " + o.Exp})
+			res.direct = append(res.direct, directViolation{Case: idx, Step: step, What: "concurrent Find did not reach a callback or return within 120 s / faulted: " + o.Exp})
 		}
 		if o.K == "served" || o.K == "err" || o.K == "stuck" {
 			results[i] = o
